@@ -10,14 +10,13 @@
    It is FALSE of the faithful model: every *_refuted theorem below exhibits a
    state (replayed on the implementation, known findings of C28).  Proved here:
    write-tree / commit for arbitrary nesting (C28_write_tree), and the operations
-   whose guard is simple (rm of a file, mv, clean -d).  NOT proved, only exercised
-   by the correspondence and the git oracle on every run: add (file / directory /
-   all) under a guard, rm of a directory, clean without -d; the per-directory
-   order of tree entries (sortName) and the tree ids are checked against
-   `git write-tree` by the oracle only. *)
+   whose guard is simple (rm of a file, mv, clean -d), add (file / directory /
+   All / any list of names) up to cached stat data, rm of a directory, clean
+   without -d under explicit boolean guards. *)
 From Coq Require Import List NArith Bool String.
 From Coq Require Import Permutation.
 From GoGit Require Import Base.Out Model.Status Model.IndexOps Spec.GitStatus Spec.GitIndexOps Proofs.C27 Proofs.C28 Proofs.C28Tree.
+From GoGit Require Import Proofs.C28Add Proofs.C28AddCor.
 Import ListNotations.
 Local Open Scope N_scope.
 
@@ -217,7 +216,75 @@ Proof.
 Qed.
 Print Assumptions C28_add_replaced_dir_refuted.
 
+(* --- add equals git add under a guard.  Index equality is per path and up to the
+   cached stat data (size, mtime) of UNCHANGED files, which `git ls-files -s`, a
+   tree and a commit do not show: go-git leaves such an entry alone, git refreshes
+   it (res_equiv / idx_sem_eq in Proofs/C28Add.v).
+   add_guard s: core.fileMode is on; no path of the worktree is a directory of /
+   lies below an index entry or another file; worktree paths are distinct; every
+   entry with a file has an id of the repository's format, is not intent-to-add
+   and is not falsely matched by the metadata shortcut; the ignore verdicts of
+   untracked files agree (no .git/info/exclude effect). *)
+
+(* the general statement: go-git runs doAddFile on [names], git stages the scope
+   [sc]; they agree whenever the names lie in the scope, are acceptable, and cover
+   every path of the scope whose worktree side shows a change *)
+Theorem C28_add_scope_eq : forall s sc names,
+  add_guard s = true ->
+  nodup_b names = true ->
+  (forall q, mem_path q names = true -> sc q = true /\ name_ok s q = true) ->
+  (forall q, sc q = true -> IndexOps.is_some (right_change s q) = true -> mem_path q names = true) ->
+  res_equiv (add_names s names) (ROk (with_index s (git_add_scope s sc))).
+Proof. exact add_scope_eq. Qed.
+Print Assumptions C28_add_scope_eq.
+
+(* Add(file): tracked, or untracked and not ignored *)
+Theorem C28_add_file_eq : forall s p, add_file_guard s p = true -> res_equiv (g_add s p) (s_add s p).
+Proof. exact add_file_eq. Qed.
+Print Assumptions C28_add_file_eq.
+
+(* Add(path) of a tracked file that is gone: exact equality *)
+Theorem C28_add_deleted_eq : forall s p e,
+  noconf s = true -> find_i (st_index s) p = Some e -> find_w (st_wt s) p = None -> g_add s p = s_add s p.
+Proof. exact add_deleted_eq. Qed.
+Print Assumptions C28_add_deleted_eq.
+
+(* Add(directory) *)
+Theorem C28_add_dir_eq : forall s p, add_dir_guard s p = true -> res_equiv (g_add s p) (s_add s p).
+Proof. exact add_dir_eq. Qed.
+Print Assumptions C28_add_dir_eq.
+
+(* AddWithOptions{All} = git add -A *)
+Theorem C28_add_all_eq : forall s, add_guard s = true -> res_equiv (g_add_all s) (s_add_all s).
+Proof. exact add_all_eq. Qed.
+Print Assumptions C28_add_all_eq.
+
+(* --- rm of a directory all of whose entries still have their files: exact equality *)
+Theorem C28_rm_dir_eq : forall s p, rm_dir_guard s p = true -> g_rm s p = s_rm s p.
+Proof. exact rm_dir_eq. Qed.
+Print Assumptions C28_rm_dir_eq.
+
+(* --- clean without Dir: equal to git clean -f when no untracked file lies in a
+   directory git enters (one whose ancestors all hold tracked files) *)
+Theorem C28_clean_nod_eq_partial : forall s, clean_nod_guard s = true -> g_clean s false = s_clean s false.
+Proof. exact clean_nod_eq. Qed.
+Print Assumptions C28_clean_nod_eq_partial.
+
 (* ------------------------------------------------------------ non-vacuity *)
+Example C28_add_guards_inhabited :
+  let s := st0 true [mkT pa MReg (mkHash 0 1)]
+                [mkI pa MReg (mkHash 0 1) 2 5 false; mkI [98] MExec (mkHash 0 2) 2 5 false; mkI pdy MReg (mkHash 0 4) 1 5 false;
+                 mkI [103] MReg (mkHash 0 1) 2 5 false]
+                [mkW pa MReg 5 2 9 false false; mkW [98] MExec 2 2 5 false false; mkW [117] MReg 3 1 9 false false;
+                 mkW pdx MReg 3 1 9 false false; mkW pdy MReg 4 1 5 false false; mkW [111] MReg 3 1 9 true true] in
+  add_guard s = true /\ add_file_guard s pa = true /\ add_file_guard s [117] = true /\ add_dir_guard s pd = true /\
+  rm_dir_guard s pd = true /\ clean_nod_guard s = false /\
+  clean_nod_guard (with_both s (st_index s) [mkW pa MReg 5 2 9 false false; mkW [117] MReg 3 1 9 false false]) = true /\
+  (exists s', g_add_all s = ROk s' /\ map ie_path (st_index s') = [pa; [98]; pdy; [117]; pdx]) /\
+  (exists s', g_add s pd = ROk s' /\ map ie_path (st_index s') = [pa; [98]; pdy; [103]; pdx]) /\
+  (exists s', g_rm s pd = ROk s' /\ map ie_path (st_index s') = [pa; [98]; [103]] /\ map wf_path (st_wt s') = [pa; [98]; [117]; pdx; [111]]).
+Proof. vm_compute. repeat split; try reflexivity; eexists; repeat split; reflexivity. Qed.
+
 Example C28_guards_inhabited :
   let s := st0 true [mkT pa MReg (mkHash 0 1)]
                 [mkI pa MReg (mkHash 0 1) 2 5 false; mkI [98] MExec (mkHash 0 2) 2 5 false]
